@@ -227,6 +227,12 @@ LOOPS = [
     ("list-remove-end", "x := list(1 to {n})", "for (i <- 1 to {k}) remove x[-1]"),
     ("list-concat", "x := list(1 to {n})", "for (i <- 1 to {k}) x ++= [i]"),
     ("list-concat-var", "x := list(1 to {n}); w := [0, 0]", "for (i <- 1 to {k}) x ++= w"),
+    # interleaved growth and shrinkage around the size the list was born with / grown to (capacity handling must be amortised)
+    ("append-pop-rounds", "x := list(1 to {n})", "for (i <- 1 to {k}) (x append= i; pop x)"),
+    ("pop-append-rounds", "x := list(1 to {n})", "for (i <- 1 to {k}) (pop x; x append= i)"),
+    ("append-pop-rounds-replicated", "x := 0 .* {n}", "for (i <- 1 to {k}) (x append= i; pop x)"),
+    ("grown-pop-append-rounds", "x := []; for (i <- 0 to {n}) x append= i", "for (i <- 1 to {k}) (pop x; x append= i)"),
+    ("grown-pop2-append2-rounds", "x := []; for (i <- 0 to {n}) x append= i", "for (i <- 1 to {k}) (pop x; pop x; x append= i; x append= i)"),
     # the collection itself is the condition of the construct whose body mutates it (the condition's value must not stay alive)
     ("while-cond-pop", "x := list(1 to {n})", "while (x) pop x"),
     ("while-cond-remove", "x := list(1 to {n})", "while (x) remove x[-1]"),
